@@ -1,5 +1,6 @@
 #![allow(dead_code)]
 mod absmap;
+mod builders;
 mod convert;
 mod decode;
 mod dispatch;
@@ -21,6 +22,7 @@ fn main() {
         "decode-replay" => decode::main(rest),
         "decode-record" => decode::record_main(rest),
         "dispatch-replay" => dispatch::main(rest),
+        "builders-replay" => builders::main(rest),
         "convert-replay" => convert::replay_main(rest),
         "convert-record" => convert::record_main(rest),
         "decode-dump" => {
